@@ -29,14 +29,14 @@ def run(ctx, R):
     declare(R, {**flow.RULES, **delivery.RULES}, RULES, FLOORS)
     M = ctx.model
     core = [c for c in M.nodes if c.module.name in ('streamz.core', 'streamz.sinks')]
-    delivery.check_fanout(ctx, R)
-    delivery.check_emit_sig(ctx, R, core)
-    delivery.check_pass_value(ctx, R, core)
-    delivery.check_fifo_end(ctx, R, core)
-    delivery.check_swap_atomic(ctx, R, core)
-    delivery.check_flush_resets(ctx, R, core)
-    delivery.check_fresh_read(ctx, R, core)
-    delivery.check_reversed_stack(ctx, R, core)
-    delivery.check_state_per_instance(ctx, R, [c for c in M.nodes if c.module.name in ('streamz.core', 'streamz.sinks', 'streamz.sources', 'streamz.dask')])
-    flow.check_flat_return(ctx, R, core)
-    flow.check_propagate(ctx, R, modules=('streamz.core', 'streamz.sinks'), note_modules=())
+    R.run(delivery.check_fanout, ctx, R)
+    R.run(delivery.check_emit_sig, ctx, R, core)
+    R.run(delivery.check_pass_value, ctx, R, core)
+    R.run(delivery.check_fifo_end, ctx, R, core)
+    R.run(delivery.check_swap_atomic, ctx, R, core)
+    R.run(delivery.check_flush_resets, ctx, R, core)
+    R.run(delivery.check_fresh_read, ctx, R, core)
+    R.run(delivery.check_reversed_stack, ctx, R, core)
+    R.run(delivery.check_state_per_instance, ctx, R, [c for c in M.nodes if c.module.name in ('streamz.core', 'streamz.sinks', 'streamz.sources', 'streamz.dask')])
+    R.run(flow.check_flat_return, ctx, R, core)
+    R.run(flow.check_propagate, ctx, R, modules=('streamz.core', 'streamz.sinks'), note_modules=())
